@@ -336,6 +336,7 @@ def elast_data_obligation(chk, F, system, rows, rng):
     name = "%s:apply_symetry_on_elast_data" % system
     ex = X.Explorer(max_paths=8, name=name)
     ex.prefer = FC.no_drop_cut
+    ex.generic_eq = True
     proxy = NumpyProxy()
 
     def fn():
